@@ -156,6 +156,34 @@ fn text_check(case: &Value, stats: &mut Stats) -> CheckResult {
     Ok(())
 }
 
+/// The named constructors of the initial position.
+fn initial_check(_case: &Value, stats: &mut Stats) -> CheckResult {
+    let std_fen = "rnbqkbnr/pppppppp/8/8/8/8/PPPPPPPP/RNBQKBNR w KQkq - 0 1";
+    let r = RefPos::initial();
+    ensure!(Board::initial().as_fen() == std_fen && *Board::initial().raw() == raw_from_ref(&r), "Board::initial() is {}", Board::initial().as_fen());
+    ensure!(RawBoard::initial() == raw_from_ref(&r), "RawBoard::initial() is {}", RawBoard::initial().as_fen());
+    ensure!(RawBoard::empty() == RawBoard::default() && RawBoard::empty().as_fen() == "8/8/8/8/8/8/8/8 w - - 0 1", "RawBoard::empty()");
+    let c = owlchess::MoveChain::new_initial();
+    ensure!(c.last() == &Board::initial() && c.len() == 0 && *c.startpos() == RawBoard::initial(), "MoveChain::new_initial()");
+    check_consistent(&Board::initial(), "Board::initial()")?;
+    for f in 0..8u8 {
+        for rk in 0..8u8 {
+            let c = owlchess::Coord::from_parts(owlchess::File::from_index(f as usize), owlchess::Rank::from_index(rk as usize));
+            ensure!(Board::initial().get2(c.file(), c.rank()) == Board::initial().get(c) && RawBoard::initial().get2(c.file(), c.rank()) == RawBoard::initial().get(c), "get2 differs from get");
+        }
+    }
+    stats.nontrivial(&"initial");
+    stats.nontrivial(&"empty");
+    Ok(())
+}
+
+fn initial_driver(_ctx: &RunCtx, stats: &mut Stats, rep: &mut Reporter) {
+    let case = json!({"constructors": "initial / empty"});
+    if let Err(f) = guarded("C08", "named_constructors", initial_check, &case, stats) {
+        rep(case, f);
+    }
+}
+
 pub fn property() -> Property {
     Property {
         id: "C08",
@@ -169,6 +197,15 @@ pub fn property() -> Property {
                / multi-digit counter (positions), invalid board or mark (raw), non-canonical accepted text (texts).",
         assumptions: &["the independent FEN reader/writer in refmodel.rs defines 'canonical six-field FEN'"],
         subchecks: vec![
+            SubCheck {
+                name: "named_constructors",
+                driver: Driver::Custom { run: initial_driver },
+                check: initial_check,
+                configs: Configs::ReleaseOnly,
+                required: &[],
+                regressions: &[],
+                exhaustive: true,
+            },
             SubCheck {
                 name: "positions",
                 driver: Driver::Generated { gen: gen_pos_case, genome_len: 192, quick: 2_400_000, thorough: 19_200_000 },
